@@ -47,6 +47,8 @@ def gen_cases(tier, seed):
             yield ('A', sh, 'two-labels', tier)
     for g in family_b(tier):
         yield ('B', g)
+    for i in range(len(family_c())):
+        yield ('C', i)
 
 
 def describe(case):
@@ -121,6 +123,18 @@ def run_case(case):
         family_a(case[1], case[2], r, case[3] if len(case) > 3 else 'quick')
     elif case[0] == 'B':
         fam_b_case(case[1], r)
+    elif case[0] == 'C':
+        ir = family_c()[case[1]]
+        w = IR.generic_weights(ir)
+        for name, kind in ir.get('patterned', {}).items():
+            if kind == 'block':       # index 0 of every axis is structurally zero
+                for idx in itertools.product(*[range(n) for n in IR.weight_shape(ir, name)]):
+                    if 0 in idx:
+                        w = IR.set_entry(w, name, idx, Fraction(0))
+        for sem in ('real', 'log', 'bool', 'viterbi'):
+            for dtype in ('float64', 'float32'):
+                for method in ('fixed-point', 'newton'):
+                    judge(ir, w, sem, dtype, method, r, ('C', case[1]))
     elif case[0] == 'A1':
         _, sh, names, dom, wspec, sem, dtype, method = case
         ir = mk_ir_a(sh, names, dom)
@@ -167,6 +181,32 @@ def family_a(sh, mode, r, tier='quick'):
                     w = weights_for(ir, wd)
                     for sem in SEMS:
                         judge(ir, w, sem, 'float64', 'fixed-point', r, ('A1', sh, names, dom, wd, sem, 'float64', 'fixed-point'))
+
+
+def family_c():
+    """Hand-picked structures outside families A and B.
+    (1) a start symbol with three external nodes whose order differs from the order in which the edges mention them,
+        above a binary nonterminal whose own external nodes carry no edge / only a nullary factor / one unary factor
+        (broadcast, stride-0 values re-inserted into the output);
+    (2) a factor stored as a block pattern (no bare physical axis among its virtual axes) used twice in one rule, and
+        next to a nonterminal computed from it."""
+    out = []
+    T3 = ('T', 'T', 'T')
+    for dom in (2, 3):
+        for ext in itertools.permutations(range(3)):
+            for yatt in ((0, 1), (1, 0)):
+                for body in ((), (('t0', ()),), (('t1', (0,)),), (('t1', (1,)),)):
+                    out.append({'start': 'S', 'nl': {'T': dom}, 'term': {'t0': (), 't1': ('T',), 'h': ('T',)}, 'nt': {'S': T3, 'Y': ('T', 'T')},
+                                'rules': [('S', T3, tuple(ext), (('Y', yatt), ('h', (2,)))), ('Y', ('T', 'T'), (0, 1), body)]})
+        for sext in ((0, 2), (2, 0), ()):
+            base = {'start': 'S', 'nl': {'T': dom}, 'term': {'f': ('T', 'T')}, 'patterned': {'f': 'block'}}
+            out.append(dict(base, nt={'S': tuple('T' for _ in sext)}, rules=[('S', T3, sext, (('f', (0, 1)), ('f', (1, 2))))]))
+            out.append(dict(base, nt={'S': tuple('T' for _ in sext)}, rules=[('S', T3, sext, (('f', (0, 1)), ('f', (2, 1))))]))
+            out.append(dict(base, nt={'S': tuple('T' for _ in sext), 'X': ('T', 'T')},
+                            rules=[('S', T3, sext, (('X', (0, 1)), ('f', (1, 2)))), ('X', ('T', 'T'), (0, 1), (('f', (0, 1)),))]))
+            out.append(dict(base, nt={'S': tuple('T' for _ in sext), 'X': ('T', 'T')},
+                            rules=[('S', T3, sext, (('X', (1, 0)), ('f', (1, 2)), ('f', (0, 2)))), ('X', ('T', 'T'), (0, 1), (('f', (1, 0)),))]))
+    return out
 
 
 def fam_b_case(g, r):
